@@ -6,13 +6,17 @@
 (* static label paired with its own value.                                                            *)
 EXTENDS Integers, FiniteSets, Sequences, TLC
 
-CONSTANTS MaxRuns, MaxIters, StaticKeys, StaticVal(_)
+CONSTANTS MaxRuns, MaxIters, StaticKeys, StaticVal(_),
+          PushKind       \* "put": a push REPLACES the whole group on the gateway (what Run.pushMetrics does);
+                         \* "post": it replaces only the metric families present in the push (mutant configuration)
 
 Results == {"success", "fail", "dropped"}
 VARIABLES setupVec,      \* function: label record -> sample count (setup family)
           iterVec,       \* function: label record -> sample count (iteration family)
-          runNo, phase, truth, setupOK, iters
-vars == <<setupVec, iterVec, runNo, phase, truth, setupOK, iters>>
+          runNo, phase, truth, setupOK, iters,
+          gateway,       \* what the push gateway holds for this job's group: [setup |-> vector, iter |-> vector]
+          pushed         \* the push that follows the teardown has been made
+vars == <<setupVec, iterVec, runNo, phase, truth, setupOK, iters, gateway, pushed>>
 
 Labels(res, withStage) ==
     [test |-> "scn", result |-> res, stage |-> IF withStage THEN "iteration" ELSE "", static |-> [k \in StaticKeys |-> StaticVal(k)]]
@@ -20,24 +24,33 @@ Bump(vec, l) == IF l \in DOMAIN vec THEN [vec EXCEPT ![l] = @ + 1] ELSE vec @@ (
 Zero == [r \in Results |-> 0]
 
 Init == /\ setupVec = <<>> /\ iterVec = <<>> /\ runNo = 0 /\ phase = "idle" /\ truth = Zero /\ setupOK = TRUE /\ iters = 0
+        /\ gateway = [setup |-> <<>>, iter |-> <<>>] /\ pushed = FALSE
+
+\* Run.pushMetrics: an empty vector produces no metric family at all in the push
+Pushed == IF PushKind = "put" THEN [setup |-> setupVec, iter |-> iterVec]
+          ELSE [setup |-> IF setupVec = <<>> THEN gateway.setup ELSE setupVec,
+                iter |-> IF iterVec = <<>> THEN gateway.iter ELSE iterVec]
 
 \* Run.Do: metrics.Reset()
 StartRun == /\ phase = "idle" /\ runNo < MaxRuns /\ runNo' = runNo + 1
             /\ setupVec' = <<>> /\ iterVec' = <<>>        \* earlier runs are not mixed in
-            /\ truth' = Zero /\ iters' = 0 /\ phase' = "setup" /\ UNCHANGED setupOK
+            /\ truth' = Zero /\ iters' = 0 /\ phase' = "setup" /\ pushed' = FALSE /\ UNCHANGED <<setupOK, gateway>>
 \* ActiveScenario.Setup: exactly one sample labelled with the outcome
 RecordSetup(ok) == /\ phase = "setup" /\ setupOK' = ok
                    /\ setupVec' = Bump(setupVec, Labels(IF ok THEN "success" ELSE "fail", FALSE))
                    /\ phase' = IF ok THEN "iterating" ELSE "done"
-                   /\ UNCHANGED <<iterVec, runNo, truth, iters>>
+                   /\ UNCHANGED <<iterVec, runNo, truth, iters, gateway, pushed>>
 RecordIteration(r) == /\ phase = "iterating" /\ iters < MaxIters /\ iters' = iters + 1
                       /\ iterVec' = Bump(iterVec, Labels(r, TRUE))
                       /\ truth' = [truth EXCEPT ![r] = @ + 1]
-                      /\ UNCHANGED <<setupVec, runNo, phase, setupOK>>
-EndRun == phase = "iterating" /\ phase' = "done" /\ UNCHANGED <<setupVec, iterVec, runNo, truth, setupOK, iters>>
-NextRun == phase = "done" /\ phase' = "idle" /\ UNCHANGED <<setupVec, iterVec, runNo, truth, setupOK, iters>>
+                      /\ UNCHANGED <<setupVec, runNo, phase, setupOK, gateway, pushed>>
+EndRun == phase = "iterating" /\ phase' = "done" /\ UNCHANGED <<setupVec, iterVec, runNo, truth, setupOK, iters, gateway, pushed>>
+\* pushes: after setup, periodically while iterating, and - the one that counts - after the teardown
+Push == /\ phase \in {"iterating", "done"} /\ gateway' = Pushed /\ pushed' = (phase = "done")
+        /\ UNCHANGED <<setupVec, iterVec, runNo, phase, truth, setupOK, iters>>
+NextRun == phase = "done" /\ pushed /\ phase' = "idle" /\ UNCHANGED <<setupVec, iterVec, runNo, truth, setupOK, iters, gateway, pushed>>
 
-Next == StartRun \/ (\E ok \in BOOLEAN : RecordSetup(ok)) \/ (\E r \in Results : RecordIteration(r)) \/ EndRun \/ NextRun
+Next == StartRun \/ (\E ok \in BOOLEAN : RecordSetup(ok)) \/ (\E r \in Results : RecordIteration(r)) \/ EndRun \/ Push \/ NextRun
 Spec == Init /\ [][Next]_vars
 
 Count(vec, res) == LET S == {l \in DOMAIN vec : l.result = res} IN
@@ -50,5 +63,10 @@ MirrorsRun == phase = "done" =>
 \* every series carries the scenario name and each static label paired with its own value
 LabelsRight == \A l \in (DOMAIN setupVec) \cup (DOMAIN iterVec) :
     l.test = "scn" /\ \A k \in StaticKeys : l.static[k] = StaticVal(k)
+\* what the gateway shows once the run is over is what the registry holds: this run, nothing of earlier ones
+GatewayMirrorsRun == (phase = "done" /\ pushed) =>
+    /\ \A r \in Results : Count(gateway.iter, r) = truth[r]
+    /\ Count(gateway.setup, IF setupOK THEN "success" ELSE "fail") = 1
+    /\ Count(gateway.setup, IF setupOK THEN "fail" ELSE "success") = 0
 OneSeriesPerResult == \A l1, l2 \in DOMAIN iterVec : l1.result = l2.result => l1 = l2
 =============================================================================
